@@ -26,9 +26,10 @@ try:
     env = dict(os.environ, VERIF_REPO=wt, VERIF_SEED=a.seed)
     r = subprocess.run([sys.executable, "run.py", "check", a.prop, "--tier", a.tier], cwd=V, env=env, capture_output=True, text=True)
     lines = [l for l in (r.stdout + r.stderr).splitlines() if "VIOLATION" in l or "KNOWN-FINDING" in l or "done:" in l or "property failure" in l or "disagree" in l]
-    viol = [l for l in lines if l.startswith("VIOLATION") or l.startswith("KNOWN-FINDING")]
-    other = [l for l in lines if l not in viol]
-    print("\n".join(other[-10:] + viol[:8]))
+    viol = [l for l in lines if l.startswith("VIOLATION")]
+    known = [l[:160] for l in lines if l.startswith("KNOWN-FINDING")]
+    other = [l for l in lines if l not in viol and not l.startswith("KNOWN-FINDING")]
+    print("\n".join(other[-10:] + known[:4] + viol[:8]))
     print("exit", r.returncode)
     if r.returncode and "VIOLATION" in r.stdout:
         # keep the first replay next to the patch for the record
